@@ -509,6 +509,13 @@ def c16_mirror(ctx):
             args_of(pre_out[0])[0] == "in" and args_of(pre_err[0])[0] == "in" and args_of(pre_out[0])[2] == "0" and args_of(pre_err[0])[2] == "0"
         ctx.ob("C16.G6", tag + ": opening calls", "before the loop the out sink and then the err sink are called once with stream::in and "
                "size 0", ok1, {"out": [args_of(c) for c in pre_out], "err": [args_of(c) for c in pre_err]})
+        def local_init(name):
+            """initialiser text of a single-definition local (so that `const int interests = out | err; poll(interests)` and
+            `bool from_out = events & out; stream s = from_out ? out : err; if (from_out) ...` read like the direct forms)"""
+            decls = [x for x in F.walk() if x["k"] == "VarDecl" and x["name"] == name and x.get("c")]
+            writes = [x for x in F.walk() if x["k"] in ("BinaryOperator", "CompoundAssignOperator") and x.get("op", "").endswith("=")
+                      and x["op"] not in ("==", "!=", "<=", ">=") and expr_str(cstrip(x["c"][0])) == name]
+            return expr_str(cstrip(decls[0]["c"][0])) if len(decls) == 1 and not writes else None
         in_out = [c for c in outc if c["id"] in loop_ids]
         in_err = [c for c in errc if c["id"] in loop_ids]
         ok2 = len(in_out) == 1 and len(in_err) == 1 and args_of(in_out[0]) == ["stream", "buffer", "bytes_read"] and args_of(in_err[0]) == ["stream", "buffer", "bytes_read"]
@@ -518,6 +525,12 @@ def c16_mirror(ctx):
                 if a["k"] == "IfStmt":
                     c = cstrip(F.nodes[a["cond"]])
                     txt = expr_str(c)
+                    if c["k"] == "DeclRefExpr" and local_init(c["name"]):
+                        # `if (from_out)` where `stream` itself is chosen by the same flag: from_out ? stream::out : stream::err
+                        flag = c["name"]
+                        sinit = local_init("stream") or ""
+                        if sinit.replace(" ", "").startswith(flag + "?") and sinit.index("out") < sinit.index("err"):
+                            txt = "stream == out (via %s: %s)" % (flag, local_init(flag))
                     sel = "stream" in txt and "out" in txt and a.get("else") is not None and in_err[0]["id"] in {x["id"] for x in walk_nodes(F.nodes[a["else"]])} \
                         and in_out[0]["id"] in {x["id"] for x in walk_nodes(F.nodes[a["then"]])}
                     break
@@ -527,6 +540,8 @@ def c16_mirror(ctx):
         reads = [n for n in F.walk() if n["k"] == "CXXMemberCallExpr" and cstrip(n["c"][0]).get("member") == "read"]
         ok3 = len(polls) == 1 and len(reads) == 1 and polls[0]["id"] in loop_ids and reads[0]["id"] in loop_ids and polls[0]["id"] < reads[0]["id"]
         ev_arg = expr_str(cstrip(polls[0]["c"][1])) if polls else ""
+        if polls and cstrip(polls[0]["c"][1])["k"] == "DeclRefExpr" and local_init(ev_arg):
+            ev_arg = local_init(ev_arg)
         ok3 = ok3 and "out" in ev_arg and "err" in ev_arg and [expr_str(cstrip(x)) for x in reads[0]["c"][1:]][:2] == ["stream", "buffer"]
         refs = {x["name"] for x in F.walk() if x["k"] == "DeclRefExpr"}
         ok4 = "broken_pipe" in refs and "deadline" in refs and "timed_out" in refs
